@@ -224,6 +224,7 @@ func (e *Exec) execInstr(st *State, fr *Frame, instr ssa.Instruction) []stepOut 
 		if h := e.h; h != nil {
 			h.sends++
 		}
+		st.sends++
 		cv := e.val(st, fr, x.Chan)
 		e.chanSend(st, cv, e.val(st, fr, x.X))
 		return one(st, fr)
